@@ -57,6 +57,25 @@ def guard_texts(func: ast.AST, node: ast.AST) -> list[tuple[str, bool]]:
     return [(ast.unparse(g), pol) for g, pol in all_guards(func, node)]
 
 
+def guard_atoms(func: ast.AST, node: ast.AST) -> list[tuple[str, bool]]:
+    """Path condition of ``node`` as signed atoms: conjunctions are split, negations and
+    negative comparison operators are folded into the sign - `if not (a or b): return` before
+    the node, `if a is not None and c:` around it and `if a is None: ... else:` all give the
+    same atoms, so a rule comparing guards does not depend on how the condition is written."""
+    from .normalize import atoms
+
+    out: list[tuple[str, bool]] = []
+    for g, pol in all_guards(func, node):
+        for a in atoms(g, pol):
+            if a not in out:
+                out.append(a)
+    return out
+
+
+def holds(atoms_: list[tuple[str, bool]], text: str, pol: bool = True) -> bool:
+    return (text, pol) in atoms_
+
+
 def assigned_names(func: ast.AST) -> dict[str, list[ast.expr]]:
     """name -> list of value expressions assigned to it in the function (no nested defs)."""
     out: dict[str, list[ast.expr]] = {}
